@@ -94,7 +94,7 @@ class HistoryModel:
             if old.shape == value.shape:
                 diff = float((old - value).abs().max())
             raise Violation(f"repeat_differs_{comp}",
-                            {"key": [fx(key[0]), fx(key[1])] if isinstance(key, tuple) else str(key),
+                            {"key": [k if isinstance(k, str) else fx(k) for k in key] if isinstance(key, tuple) else str(key),
                              "first_at_op": self.first_idx[k], "max_abs_diff": diff}, idx)
         return True
 
